@@ -54,6 +54,27 @@ def check(run):
         run.count("fixture_of_a_disabled_test_only_runs")
         for sig, text in runoracle.c03_oracle(c, r):
             run.violation(sig, text, {"case": c, "outcome": r.get("outcome")})
+    # directed family (test scope): setup_test completes, then a test-scoped fixture set up after it fails (raises / logs an
+    # error), or the body fails: teardown_test still runs, once, and the fixtures set up before the failing one are torn down
+    tcases = []
+    for k, (how, nthreads) in enumerate([(["raise", "Exception"], 1), (["log", 3, 9], 2), (["raise", "AbortTest"], 1), (None, 2)]):
+        fx = [{"name": "f5", "scope": "test", "params": [], "per_thread": False, "generator": True, "setup": [["mark", 1]], "teardown": [["mark", 2]]},
+              {"name": "f9", "scope": "test", "params": [], "per_thread": False, "generator": True,
+               "setup": [["mark", 3]] + ([how] if how else []), "teardown": [["mark", 4]]}]
+        tests = [{"name": "t7", "disabled": False, "rank": 0, "deps": [], "args": ["f5", "f9"], "params": {},
+                  "body": [["log", 1, 1]] + ([] if how else [["raise", "Exception"]])},
+                 {"name": "t8", "disabled": False, "rank": 1, "deps": [], "args": [], "params": {}, "body": [["log", 1, 2]]}]
+        tcases.append({"id": "ft%d" % k, "project": {"fixtures": fx, "suites": [
+            {"name": "s6", "disabled": False, "rank": 0, "hooks": dict(nohooks, setup_test=[["mark", 5]], teardown_test=[["mark", 6]]),
+             "injected": [], "tests": tests, "subs": []}]},
+            "sched": projgen.gen_sched(run.rng), "options": {"nb_threads": nthreads, "stop_on_failure": False, "force_disabled": False}})
+    tres = engine.cosim(run, tcases)
+    for c in tcases:
+        r = tres.get(c["id"]) or {"outcome": ["hang", "no result"]}
+        run.evaluations += 1
+        run.count("test_scope_failure_after_setup_test_runs")
+        for sig, text in runoracle.c03_oracle(c, r):
+            run.violation(sig, text, {"case": c, "outcome": r.get("outcome")})
     propcommon.search_failing_schedule(run, cases, runoracle.c03_oracle, results)
     run.coverage["rule"] = ("seeded random projects biased towards fixtures (4 scopes, generator/plain, parameters, injected, "
                             "setup_suite arguments) and hooks with failures in setups, bodies and teardowns; non-trivial = at "
